@@ -668,6 +668,62 @@ def inline_calls(F, fn, want=None, depth=2, max_blocks=1500):
         t = b["t"]
         if b["cleanup"] or t["k"] != "call":
             continue
+        if (t.get("callee") or "") in ("std::ops::FnOnce::call_once", "std::ops::FnMut::call_mut", "std::ops::Fn::call") and len(t["args"]) == 2:
+            # a closure handed to an (inlined) helper and called there: inline the closure's body when the callee operand is,
+            # by provenance, exactly one closure aggregate of this (inlined) body
+            du_c = DefUse(g)
+            prov_c = provenance(g, du_c, t["args"][0])
+            clos = {o.rv["closure"] for o in prov_c if o.kind == "agg" and "closure" in o.rv}
+            fnitems = {(o.const.get("fn_resolved") or o.const["fn"]) for o in prov_c if o.kind == "const" and "fn" in o.const}
+            others = [o for o in prov_c if not (o.kind == "agg" and "closure" in o.rv) and not (o.kind == "const" and "fn" in o.const)]
+            is_item = False
+            if len(fnitems) == 1 and not clos and not others and next(iter(fnitems)) in F.fns:
+                clos = set(fnitems)
+                is_item = True
+            if len(clos) == 1 and not others and (is_item or not fnitems):
+                cp = next(iter(clos))
+                cb_ = F.fns.get(cp)
+                if cb_ is not None and cp not in stack and not cb_.get("coroutine") and len(cb_["blocks"]) <= 150 and (not is_item or want(t, cb_)):
+                    off_l = len(g["locals"])
+                    off_b = len(g["blocks"])
+                    g["locals"].extend(cb_["locals"])
+                    for nm, pl in cb_.get("vars", ()):
+                        g["vars"].append([nm, _shift_place(pl, off_l)])
+                    nblocks = len(cb_["blocks"])
+                    ret_block = off_b + nblocks
+                    for cbi, cb in enumerate(cb_["blocks"]):
+                        nb = {"cleanup": cb["cleanup"], "s": [], "inl": cb.get("inl", cp), "inl_bb": cb.get("inl_bb", cbi)}
+                        for s_ in cb["s"]:
+                            ns = dict(s_)
+                            ns["lhs"] = _shift_place(s_["lhs"], off_l)
+                            ns["rv"] = _shift_rv(s_["rv"], off_l)
+                            ns["inl"] = cp
+                            nb["s"].append(ns)
+                        nt = _shift_term(cb["t"], off_l, off_b, ret_block)
+                        nt["inl"] = cp
+                        nb["t"] = nt
+                        g["blocks"].append(nb)
+                    land = {"cleanup": False, "inl": cp, "s": [{"lhs": t["dest"], "rv": {"k": "use", "op": {"mv": {"l": off_l, "p": []}}},
+                                                                "line": t.get("line"), "exp": t.get("exp", ""), "inl_ret": cp}],
+                            "t": ({"k": "goto", "t": t["t"], "line": t.get("line"), "exp": ""} if t["t"] is not None
+                                  else {"k": "unreachable", "line": t.get("line"), "exp": ""})}
+                    g["blocks"].append(land)
+                    # environment, then the tupled arguments spread over the closure's parameters
+                    first = 1
+                    if not is_item:
+                        b["s"].append({"lhs": {"l": off_l + 1, "p": []}, "rv": {"k": "use", "op": t["args"][0]}, "line": t.get("line"), "exp": "", "inl_arg": cp})
+                        first = 2
+                    tpl = op_place(t["args"][1])
+                    for i in range(cb_["argc"] - (first - 1)):
+                        if tpl is not None:
+                            src = {"cp": {"l": tpl["l"], "p": list(tpl["p"]) + [["f", str(i), "tuple", "", g["locals"][off_l + first + i]]]}}
+                            b["s"].append({"lhs": {"l": off_l + first + i, "p": []}, "rv": {"k": "use", "op": src}, "line": t.get("line"), "exp": "", "inl_arg": cp})
+                    b["t"] = {"k": "goto", "t": off_b, "line": t.get("line"), "exp": t.get("exp", ""), "inl_call": cp, "orig_call": t}
+                    g["inlined"].append(cp)
+                    _thread_returns(g, off_l, off_b, nblocks, ret_block, t["dest"], t["t"], wrap=None)
+                    for j in range(nblocks):
+                        work.append((off_b + j, d - 1, stack + (cp,)))
+            continue
         r = t.get("resolved") or (t.get("callee") if not t.get("trait") else None)
         if not r or r in stack:
             continue
